@@ -11,6 +11,7 @@ import time
 import z3
 
 from engine import llsym
+from engine.ordabs import OSolver
 from engine.build import SRC, REPO
 
 FAM = {'II': [], 'UU': ['-DZODB_UNSIGNED_KEY_INTS'], 'LL': ['-DZODB_64BIT_INTS'], 'QQ': ['-DZODB_64BIT_INTS', '-DZODB_UNSIGNED_KEY_INTS']}
@@ -494,7 +495,7 @@ def run_leaf(ob, scratch):
     except (llsym.Unsupported, llsym.Budget) as e:
         res.update(verdict='inconclusive', detail='%s: %s' % (type(e).__name__, e), paths=0, solver_queries=0, solver_s=0, wall_s=time.time() - t0)
         return res
-    s = z3.Solver()
+    s = OSolver()
     s.add(*pre)
     q, ts, cex, detail, reached = 0, 0.0, None, None, 0
     for o in outs:
@@ -648,7 +649,7 @@ def run_leaf_set(ob, scratch):
         res.update(verdict='inconclusive', detail='%s: %s' % (type(e).__name__, e), paths=0, solver_queries=0, solver_s=0, wall_s=time.time() - t0)
         return res
     lay = module.layout('%struct.Bucket_s')[2]
-    s = z3.Solver()
+    s = OSolver()
     s.add(*pre)
     q, ts, cex, detail, reached = 0, 0.0, None, None, 0
     for o in outs:
@@ -851,7 +852,7 @@ def run_tree_get(ob, scratch):
         res.update(verdict='inconclusive', detail='%s: %s' % (type(e).__name__, e), paths=0, solver_queries=0, solver_s=0, wall_s=time.time() - t0)
         return res
     stored = sorted({r for _, _, ranks in leaves for r in ranks})
-    s = z3.Solver()
+    s = OSolver()
     s.add(*pre)
     q, ts, cex, detail, reached = 0, 0.0, None, None, 0
     for o in outs:
